@@ -10,7 +10,7 @@
 
 use ntp_proto::{ClockId, TimeSnapshot};
 
-use crate::{CsptpManager, CsptpState, InternalState, StateMutex};
+use crate::{CsptpManager, CsptpState, StateMutex};
 
 /// Copy of everything inside [`InternalState`].
 #[derive(Debug, Clone, Copy)]
